@@ -19,7 +19,6 @@ Lemma upd_Forall {A} (P : A -> Prop) f : forall l i,
 Proof.
   induction l as [|a l IH]; intros [|i] HF Hx; simpl; auto;
     inversion HF; subst; constructor; auto.
-  apply Hx. reflexivity.
 Qed.
 
 Lemma map_upd_same {A B} (g : A -> B) f : forall l i,
@@ -131,8 +130,9 @@ Qed.
 
 Lemma mu_init Ss : mu (init Ss) = 3 * total Ss + 7 * length Ss.
 Proof.
-  unfold mu, init, total. simpl. induction Ss as [|l Ss IH]; simpl; auto.
-  rewrite weight_init, app_length, IH. lia.
+  unfold mu, init, total. cbn [srcs]. induction Ss as [|l Ss IH]; [reflexivity|].
+  assert (E : forall a r, list_sum (a :: r) = a + list_sum r) by reflexivity.
+  cbn [map concat length]. rewrite E, weight_init, app_length, IH. lia.
 Qed.
 
 (* ------------------------------------------------------------------ invariant *)
@@ -335,9 +335,9 @@ Proof.
     + (* RecvError: excluded by the protocol *)
       destruct (unsent x) eqn:Eu; [|discriminate]. exfalso.
       destruct (got_fi x).
-      * destruct Hx as [ms Hx]. unfold rd in Hx. rewrite Ep, Eq, Eu in Hx.
+      * destruct Hx as [ms Hx]. unfold rd in Hx. rewrite ?Ep, ?Eq, ?Eu in Hx.
         symmetry in Hx. now apply proto_tail_not_nil in Hx.
-      * destruct Hx as (_ & ms & Hx). rewrite Eq, Eu in Hx. discriminate.
+      * destruct Hx as (_ & ms & Hx). rewrite ?Eq, ?Eu in Hx. discriminate.
     + intros H; inversion H; subst; clear H. unfold inv. simpl.
       assert (Hsame : forall y, nth_error (srcs s) i = Some y -> y = x).
       { intros y Hy. rewrite Ex in Hy. now inversion Hy. }
@@ -345,9 +345,9 @@ Proof.
       * (* FileInfo *)
         assert (Hq : got_fi x = false /\ exists ms, q ++ unsent x = proto_tail ms).
         { destruct (got_fi x).
-          - destruct Hx as [ms Hx]. unfold rd in Hx. rewrite Ep, Eq in Hx. simpl in Hx.
+          - destruct Hx as [ms Hx]. unfold rd in Hx. rewrite ?Ep, ?Eq in Hx. simpl in Hx.
             symmetry in Hx. now apply proto_tail_not_info in Hx.
-          - destruct Hx as (_ & ms & Hx). rewrite Eq in Hx. simpl in Hx. inversion Hx. eauto. }
+          - destruct Hx as (_ & ms & Hx). rewrite ?Eq in Hx. simpl in Hx. inversion Hx. eauto. }
         destruct Hq as (Hg & ms & Hq).
         repeat split.
         -- apply upd_Forall; auto. intros y _. unfold src_ok, recv_datum. simpl. rewrite Hl.
@@ -359,23 +359,23 @@ Proof.
       * (* NewMessage *)
         assert (Hq : got_fi x = true /\ exists ms, DMsg m :: q ++ unsent x = proto_tail ms).
         { destruct (got_fi x).
-          - destruct Hx as [ms Hx]. unfold rd in Hx. rewrite Ep, Eq in Hx. simpl in Hx. eauto.
-          - destruct Hx as (_ & ms & Hx). rewrite Eq in Hx. discriminate. }
+          - destruct Hx as [ms Hx]. unfold rd in Hx. rewrite ?Ep, ?Eq in Hx. simpl in Hx. eauto.
+          - destruct Hx as (_ & ms & Hx). rewrite ?Eq in Hx. discriminate. }
         destruct Hq as (Hg & ms & Hq).
         repeat split.
         -- apply upd_Forall; auto. intros y _. unfold src_ok, recv_datum. simpl. rewrite Hl, Hg.
            exists ms. unfold rd. simpl. exact Hq.
         -- apply (close_fi_ok (srcs s)); auto. intros Hall.
-           apply forallb_upd_mono; auto. intros y Hy _. apply Hsame in Hy. now subst y.
+           apply forallb_upd_mono; auto.
         -- rewrite map_upd_same; auto. intros y Hy. apply Hsame in Hy. subst y.
            unfold remaining, rd, recv_datum. simpl. now rewrite Ep, Eq.
       * (* FileSummary *)
         assert (Hq : got_fi x = true /\ q = [] /\ unsent x = []).
         { destruct (got_fi x).
-          - destruct Hx as [ms Hx]. unfold rd in Hx. rewrite Ep, Eq in Hx. simpl in Hx.
+          - destruct Hx as [ms Hx]. unfold rd in Hx. rewrite ?Ep, ?Eq in Hx. simpl in Hx.
             symmetry in Hx. apply proto_tail_sum in Hx as [_ Hx].
             apply app_eq_nil in Hx. tauto.
-          - destruct Hx as (_ & ms & Hx). rewrite Eq in Hx. discriminate. }
+          - destruct Hx as (_ & ms & Hx). rewrite ?Eq in Hx. discriminate. }
         destruct Hq as (Hg & -> & Hu).
         repeat split.
         -- apply upd_Forall; auto. intros y _. unfold src_ok, recv_datum, drained. simpl. auto.
@@ -483,7 +483,7 @@ Proof.
   induction es as [|e es IH]; intros s s' Hr H; simpl in H.
   - now inversion H; subst.
   - destruct (step cap s e) as [s1|] eqn:E; [|discriminate].
-    eapply IH; [|exact H]. econstructor; eauto.
+    eapply IH; [|exact H]. apply reach_step with (s := s) (e := e); auto.
 Qed.
 
 (* every maximal execution, under any schedule, ends with the same output *)
@@ -509,7 +509,7 @@ Proof.
     apply measure_decreases in He. lia.
   - destruct (no_deadlock cap Ss s Hcap Hr Hf) as (e & s1 & He).
     destruct (IH s1) as (es & s' & Hrun & Hf'); auto.
-    + econstructor; eauto.
+    + apply reach_step with (s := s) (e := e); auto.
     + apply measure_decreases in He. lia.
     + exists (e :: es), s'. simpl. rewrite He. auto.
 Qed.
@@ -556,14 +556,35 @@ Lemma replay_recv_reachable cap Ss s i k s' :
   reachable cap Ss s -> replay_recv cap s i k = Some s' -> reachable cap Ss s'.
 Proof.
   intros Hr H. apply replay_recv_steps in H as [(s1 & H1 & H2)|H].
-  - econstructor; [econstructor|]; eauto.
-  - econstructor; eauto.
+  - apply reach_step with (s := s1) (e := Recv i); auto.
+    apply reach_step with (s := s) (e := Send i); auto.
+  - apply reach_step with (s := s) (e := Recv i); auto.
 Qed.
+
+Lemma replay_S f cap s recvs :
+  replay (S f) cap s recvs =
+  if final s then
+    match recvs with [] => RDone [] s | _ :: _ => RBad 1 [] end
+  else if wait_mode s then
+    match recvs with
+    | [] => RBad 2 []
+    | (i, k) :: r =>
+        match replay_recv cap s i k with
+        | Some s' => prepend (TR i k :: if disconnects k then [TD i] else []) (replay f cap s' r)
+        | None => RBad 3 []
+        end
+    end
+  else
+    match first_min (map pending (srcs s)), step cap s Print with
+    | Some (i, _), Some s' => prepend [TP i] (replay f cap s' recvs)
+    | _, _ => RBad 4 []
+    end.
+Proof. reflexivity. Qed.
 
 Lemma replay_fuel_enough cap : forall fuel s recvs,
   mu s < fuel -> replay fuel cap s recvs <> ROutOfFuel.
 Proof.
-  induction fuel as [|f IH]; intros s recvs Hmu; [lia|]. simpl.
+  induction fuel as [|f IH]; intros s recvs Hmu; [lia|]. rewrite replay_S.
   destruct (final s); [destruct recvs; discriminate|].
   destruct (wait_mode s).
   - destruct recvs as [|[i k] r]; [discriminate|].
@@ -584,7 +605,7 @@ Lemma replay_reachable cap Ss : forall fuel s recvs t s',
   reachable cap Ss s -> replay fuel cap s recvs = RDone t s' ->
   reachable cap Ss s' /\ final s' = true.
 Proof.
-  induction fuel as [|f IH]; intros s recvs t s' Hr H; simpl in H; [discriminate|].
+  induction fuel as [|f IH]; intros s recvs t s' Hr H; [discriminate|]. rewrite replay_S in H.
   destruct (final s) eqn:Hf.
   - destruct recvs; [|discriminate]. inversion H; subst. auto.
   - destruct (wait_mode s).
@@ -595,7 +616,7 @@ Proof.
     + destruct (first_min (map pending (srcs s))) as [[i m]|]; [|discriminate].
       destruct (step cap s Print) as [s1|] eqn:E; [|discriminate].
       apply prepend_done in H as (t0 & H & _). eapply IH; [|exact H].
-      econstructor; eauto.
+      apply reach_step with (s := s) (e := Print); auto.
 Qed.
 
 Lemma coord_replay_output cap Ss recvs t s' :
@@ -606,3 +627,26 @@ Proof.
   apply (replay_reachable cap Ss) in H as [Hr Hf]; [|constructor].
   split; auto. eapply final_output_unique; eauto.
 Qed.
+
+(* ------------------------------------------------------------------ isolation (for C07) *)
+
+(* A source that fails after delivering k of its messages (k = 0: FileInfo(err) then
+   FileSummary) follows the protocol of the shorter source [firstn k x]; whatever the
+   schedule, the other sources' messages are printed exactly as if the failing source
+   were not there, and the failing source contributes exactly its first k messages. *)
+Lemma failing_source_isolated cap A x B k s :
+  well_tagged (A ++ x :: B) ->
+  reachable cap (A ++ firstn k x :: B) s -> final s = true ->
+  filter (fun m => negb (from_src (length A) m)) (printed s) = merge (A ++ B) /\
+  filter (from_src (length A)) (printed s) = firstn k x.
+Proof.
+  intros Hwt Hr Hf. destruct (final_output_unique _ _ _ Hr Hf) as [-> _]. split.
+  - apply merge_failing_source with (x := x); auto.
+    apply Forall_forall. intros m Hm. apply Hwt. rewrite nth_middle.
+    rewrite <- (firstn_skipn k x). apply in_or_app. now left.
+  - now apply merge_prefix_source.
+Qed.
+
+Lemma failing_source_protocol l k :
+  worker_datums (firstn k l) = DInfo :: map DMsg (firstn k l) ++ [DSum].
+Proof. reflexivity. Qed.
